@@ -384,7 +384,7 @@ func c07GenRound(g *G, r *Rand, key *rsa.PrivateKey, round int) {
 		rr[1] = hsDHOk(b.c.D.Nonce, b.c.S.ServerNonce, e)
 		b.emit(g, "dhOk.encrypted_answer:"+ln, rr, "dhOk", "field:encrypted_answer", "length")
 	}
-	for _, kind := range []string{"flip", "random", "zero"} {
+	for _, kind := range []string{"flip", "flipfirst", "fliplast", "random", "zero"} {
 		// bad SHA-1 prefix: the answer is encrypted correctly under the right keys, its hash is wrong
 		b := nb()
 		s := &b.c.S
